@@ -41,6 +41,8 @@ type stepJ struct {
 	Matched    bool     `json:"matched"`
 	ReplaceErr string   `json:"replace_err"`
 	Intervals  [][2]int `json:"intervals"`
+	Changed    [][2]int `json:"changed"`
+	Unchanged  [][2]int `json:"unchanged"`
 	CBefore    []cmtJ   `json:"cbefore"`
 	CAfter     []cmtJ   `json:"cafter"`
 }
@@ -106,7 +108,7 @@ func convSteps(steps []patch.VerifStep) []stepJ {
 	out := make([]stepJ, 0, len(steps))
 	for _, s := range steps {
 		j := stepJ{Prog: s.Prog, Index: s.Index, Name: s.Name, Comments: s.Comments,
-			Matched: s.Matched, ReplaceErr: s.ReplaceErr, Intervals: s.Intervals}
+			Matched: s.Matched, ReplaceErr: s.ReplaceErr, Intervals: s.Intervals, Changed: s.Changed, Unchanged: s.Unchanged}
 		for _, c := range s.CommentsBefore {
 			j.CBefore = append(j.CBefore, cmtJ{c.Offset, c.Text})
 		}
